@@ -39,6 +39,7 @@ KERNELS = {
     "C16": ["k_set_variable"],
     "C17": ["k_for_bounds", "k_if_dispatch"],
     "C36": ["k_comment_dispatch", "k_module_init"],
+    "C37": ["k_do_use_prefix", "k_use_with"],
     "C18": ["k_formal_args_eval"],
     "C21": ["k_error_and_drop"],
     "C26": ["k_str_slice", "k_str_insert", "k_str_index_length"],
@@ -437,6 +438,31 @@ STRUCTURAL_PROBES["k_load_css_lock"] = [
        "_b.scss": '@use "sass:meta";\n@include meta.load-css("c");\n', "_c.scss": ".c { y: z }\n"}, "r.scss"), ".c { y: z; } .c { y: z; }"),
     (({"a.scss": '@use "sass:meta";\n.x { @include meta.load-css("a"); }\n'}, "a.scss"), "<error>"),
 ]
+_LIB = "$v: 1;\n@function f() { @return 2 }\n@mixin m { q: r }\n"
+STRUCTURAL_PROBES["k_do_use_prefix"] = [
+    (({"a.scss": '@use "mid";\nx { y: mid.p-f(); }\n', "_mid.scss": '@forward "lib" as p-* show p-f;\n', "_lib.scss": _LIB}, "a.scss"), "y: 2"),
+    (({"a.scss": '@use "mid";\nx { y: mid.$p-v; }\n', "_mid.scss": '@forward "lib" as p-* show $p-v;\n', "_lib.scss": _LIB}, "a.scss"), "y: 1"),
+    (({"a.scss": '@use "mid";\nx { y: mid.$p-v; }\n', "_mid.scss": '@forward "lib" as p-* hide $p-v;\n', "_lib.scss": _LIB}, "a.scss"), "<error>"),
+    (({"a.scss": '@use "mid";\nx { y: mid.p-f(); }\n', "_mid.scss": '@forward "lib" as p-* hide p-f;\n', "_lib.scss": _LIB}, "a.scss"), "<error>"),
+    (({"a.scss": '@use "mid";\nx { @include mid.p-m; }\n', "_mid.scss": '@forward "lib" as p-* hide p-m;\n', "_lib.scss": _LIB}, "a.scss"), "<error>"),
+    (({"a.scss": '@use "mid";\nx { @include mid.p-m; }\n', "_mid.scss": '@forward "lib" as p-* show p-m;\n', "_lib.scss": _LIB}, "a.scss"), "q: r"),
+    (({"a.scss": '@use "mid";\nx { y: mid.f(); }\n', "_mid.scss": '@forward "lib" show f;\n', "_lib.scss": _LIB}, "a.scss"), "y: 2"),
+    (({"a.scss": '@use "mid";\nx { y: mid.$v; }\n', "_mid.scss": '@forward "lib" show f;\n', "_lib.scss": _LIB}, "a.scss"), "<error>"),
+    (({"a.scss": '@use "mid";\nx { y: mid.p-f(); z: mid.$p-v }\n', "_mid.scss": '@forward "lib" as p-*;\n', "_lib.scss": _LIB}, "a.scss"), "y: 2; z: 1;"),
+]
+STRUCTURAL_PROBES["k_use_with"] = {
+    "": [
+        (({"a.scss": '@use "lib" with ($v: 1);\nx { y: lib.$v }\n', "_lib.scss": "$v: 2 !default;\n"}, "a.scss"), "y: 1"),
+        (({"a.scss": '@use "lib" with ($v: 1, $w: 5);\nx { y: lib.$v + lib.$w }\n', "_lib.scss": "$v: 2 !default;\n$w: 3 !default;\n"}, "a.scss"), "y: 6"),
+        (({"a.scss": '@use "lib" with ($v: 1, $v: 3);\nx { y: lib.$v }\n', "_lib.scss": "$v: 2 !default;\n"}, "a.scss"), "<error>"),
+        (({"a.scss": '@use "sass:math" with ($pi: 3);\nx { y: math.$pi }\n'}, "a.scss"), "<error>"),
+        (({"a.scss": '@use "lib";\nx { y: lib.$v }\n', "_lib.scss": "$v: 2 !default;\n"}, "a.scss"), "y: 2"),
+    ],
+    "does not declare with !default": [
+        (({"a.scss": '@use "lib" with ($nope: 1);\nx { y: lib.$v }\n', "_lib.scss": "$v: 2 !default;\n"}, "a.scss"), "<error>"),
+        (({"a.scss": '@use "lib" with ($v: 1);\nx { y: lib.$v }\n', "_lib.scss": "$v: 2;\n"}, "a.scss"), "<error>"),
+    ],
+}
 STRUCTURAL_PROBES["k_module_init"] = [
     (({"a.scss": '@use "lib";\n.main { c: d }\n', "_lib.scss": "/* hello */\n.lib { /* in rule */ a: b }\n"}, "[compressed]a.scss"), ".lib{a:b}.main{c:d}"),
     (({"a.scss": '@use "lib";\n.main { c: d }\n', "_lib.scss": "/* hello */\n.lib { a: b }\n"}, "a.scss"), "/* hello */ .lib { a: b; } .main { c: d; }"),
